@@ -91,7 +91,7 @@ struct Outcome {
 struct Totals {
   uint64_t runs = 0, events = 0, allocs = 0, seam_calls = 0, preemptions = 0, switches = 0, ops = 0, ops_alloc = 0;
   uint64_t faults[FK_N] = {0}, probes[PR_N] = {0};
-  uint64_t oom_unhandled = 0, oom_swallowed = 0, watchdog = 0, forks = 0, internal = 0;
+  uint64_t oom_unhandled = 0, oom_swallowed = 0, watchdog = 0, forks = 0, internal = 0, unmodelled_sync = 0;
   std::unordered_map<std::string, uint64_t> oom_sites;
   std::unordered_set<uint64_t> nontrivial, sched_hashes;
   uint64_t runs_by_locale[3] = {0, 0, 0};
@@ -321,6 +321,7 @@ static void accumulate_counters() {
   TT.preemptions += SH->preemptions; TT.switches += SH->switches; TT.ops += SH->ops_done; TT.ops_alloc += SH->ops_alloc;
   for (int i = 0; i < FK_N; i++) TT.faults[i] += SH->faults[i];
   for (int i = 0; i < PR_N; i++) TT.probes[i] += SH->probes[i];
+  TT.unmodelled_sync += SH->unmodelled_sync;
 }
 
 // ------------------------------------------------------------------ child side
@@ -1137,7 +1138,7 @@ int main(int argc, char** argv) {
     kv("seeds", done); kv("runs", TT.runs); kv("forks", TT.forks); kv("events", TT.events); kv("allocs", TT.allocs); kv("seam_calls", TT.seam_calls);
     kv("preemptions", TT.preemptions); kv("switches", TT.switches); kv("ops", TT.ops); kv("ops_alloc", TT.ops_alloc);
     kv("oom_unhandled", TT.oom_unhandled); kv("oom_swallowed", TT.oom_swallowed); kv("watchdog", TT.watchdog); kv("internal", TT.internal);
-    kv("first_call_runs", g_first_runs); kv("edges_total", g_cov_n ? g_cov_n - 1 : 0); kv("edges_covered", cov);
+    kv("first_call_runs", g_first_runs); kv("unmodelled_sync", TT.unmodelled_sync); kv("edges_total", g_cov_n ? g_cov_n - 1 : 0); kv("edges_covered", cov);
     kv("nontrivial", TT.nontrivial.size()); kv("sched_hashes", TT.sched_hashes.size());
     kv("runs_locale_C", TT.runs_by_locale[0]); kv("runs_locale_Cutf8", TT.runs_by_locale[1]); kv("runs_locale_xx", TT.runs_by_locale[2]);
     snprintf(b, sizeof b, ",\"wall_s\":%.3f", wall); s += b;
